@@ -1068,6 +1068,9 @@ class Interp:
                 return AggV("tuple", ops) if ops else UNIT
             if info["k"] == "array":
                 return AggV("array", ops)
+            if info["k"] == "closure":
+                # a closure value: its captured variables, in capture order; the body is the local fn of that name
+                return AggV("closure:" + info.get("name", "?"), ops)
             return TopV(dest_ty, frozenset().union(*[o.deps() for o in ops]) if ops else frozenset())
         if k == "disc":
             v = self.read_loc(st, self.resolve(st, fi, rv[1]))
@@ -1612,6 +1615,33 @@ class Interp:
             return rv
         self.unknown_calls.add(cid)
         return self.havoc_call(st, args, dest_ty)
+
+    def call_closure(self, st, clos, argvals):
+        """run the body of a closure value on the given arguments; None if the body is not available"""
+        if clos.kind == "ref":
+            try:
+                clos = self.read_loc(st, clos.loc)
+            except Unsupported:
+                return None
+        if clos.kind != "agg" or not str(clos.name).startswith("closure:"):
+            return None
+        name = clos.name[len("closure:"):]
+        body = None
+        for which in ("lib", "bin"):
+            body = body or self.P.by_name.get((which, name))
+        if body is None or body["argc"] != 1 + len(argvals):
+            return None
+        self.closure_n = getattr(self, "closure_n", 0) + 1
+        selfty = body["locals"][1]["ty"]
+        if selfty.startswith("&"):
+            slot = f"__closure{self.closure_n}"
+            st.frames[0][slot] = clos
+            selfv = RefV((0, slot, ()))
+        else:
+            selfv = clos
+        if self.call_stack.count(body["name"]) >= 2:
+            return None
+        return self.run_fn(body, [selfv] + list(argvals), st)
 
     def havoc_call(self, st, args, dest_ty):
         """unknown callee: result Top, pointees of reference arguments havocked"""
